@@ -128,3 +128,149 @@ pub fn dd_of(e: &Iv) -> Option<[f64; 2]> {
 pub fn generic_stream(n: u64, stream: u64, emin: i32, emax: i32) -> Vec<[f64; 2]> {
     (0..n).filter_map(|i| tfref::alpha::generic_dd(i, stream, emin, emax)).collect()
 }
+
+/// Offsets (in units of 2^-106 relative to the binade of the base point) used by `neighbourhood`:
+/// every count up to 80 — beyond any plausible "snap" tolerance measured in double-double ulps — and
+/// a geometric tail up to 2^40 units.
+pub fn ulp_offsets() -> Vec<i64> {
+    let mut v: Vec<i64> = (0..=80).collect();
+    v.extend([96, 128, 192, 256, 384, 512, 1024, 4096, 1 << 14, 1 << 16, 1 << 20, 1 << 24, 1 << 30, 1 << 40]);
+    v
+}
+
+/// The double-doubles x0 + s·j·2^(e-106) (e = exponent of x0's high word, s = ±1, j in `js`): the two-sided
+/// neighbourhood of a base point counted in double-double ulps.  Used around pre-images of "nice"
+/// results (whole degrees, integers, published constants), where an implementation may snap or shortcut.
+pub fn neighbourhood(x0: [f64; 2], js: &[i64]) -> Vec<[f64; 2]> {
+    let mut v = vec![];
+    if !(x0[0].is_finite() && x0[0] != 0.0) {
+        return v;
+    }
+    let e = crate::grid::exp_of(x0[0]);
+    if e - 106 < -1000 {
+        return v;
+    }
+    let base = tfref::big::Dy::from_dd(x0[0], x0[1]);
+    for &j in js {
+        for s in [1.0, -1.0] {
+            if j == 0 && s < 0.0 {
+                continue;
+            }
+            let d = tfref::big::Dy::from_f64(s * j as f64 * 2f64.powi(e - 106));
+            if let Some((h, l)) = base.add(&d).to_dd_rn() {
+                if tfref::big::dd_valid_fast(h, l) {
+                    v.push([h, l]);
+                }
+            }
+        }
+    }
+    v
+}
+
+/// "Nice" values a user or an implementation may treat specially: small integers, simple fractions, the
+/// published constants (all as exact points; irrational ones rounded to 300 bits).
+fn nice_points() -> Vec<Bf> {
+    use tfref::rf;
+    let p = 300;
+    let mut v: Vec<Bf> = vec![];
+    for k in [1i64, 2, 3, 4, 5, 6, 7, 8, 9, 10, 16, 32, 64, 100, 1000] {
+        v.push(Bf::from_i64(k));
+    }
+    for (n, d) in [(1i64, 2u64), (1, 4), (1, 8), (3, 2), (3, 4), (5, 2), (1, 3), (2, 3), (1, 10), (1, 5), (1, 16), (1, 1024)] {
+        v.push(Iv::from_i64(n).div_small(d, p).lo);
+    }
+    let pi = rf::pi(p);
+    for (n, d) in [(1u64, 1u64), (2, 1), (1, 2), (1, 3), (1, 4), (1, 6), (1, 8), (3, 4), (3, 2), (2, 3), (5, 6), (1, 180)] {
+        v.push(pi.mul_small(n, p).div_small(d, p).lo);
+    }
+    let one = Bf::from_i64(1);
+    v.push(rf::exp_pt(&one, p).lo);
+    v.push(rf::ln2(p).lo);
+    v.push(rf::ln10(p).lo);
+    v.push(rf::sqrt_pt(&Bf::from_i64(2), p).lo);
+    v.push(rf::sqrt_pt(&Bf::from_i64(2), p).mul_pow2(-1).lo);
+    v.push(rf::sqrt_pt(&Bf::from_i64(3), p).lo);
+    v.push(rf::sqrt_pt(&Bf::from_i64(3), p).mul_pow2(-1).lo);
+    v.push(Iv::from_i64(1).div(&rf::sqrt_pt(&Bf::from_i64(3), p), p).lo);
+    v.push(Iv::from_i64(1).div(&pi, p).lo);
+    v.push(Iv::from_i64(2).div(&pi, p).lo);
+    let n = v.len();
+    for i in 0..n {
+        let m = v[i].neg();
+        v.push(m);
+    }
+    v
+}
+
+/// Base points around which implementations may snap or shortcut: the nice points themselves and their
+/// images under every elementary function of the crate (so that, for each function f of the crate, the
+/// pre-images of nice results of f are present: ln k for exp, e^k for ln, asin(1/2) for sin, sinh 1 for asinh, ...).
+pub fn nice_bases() -> Vec<[f64; 2]> {
+    use tfref::rf;
+    let p = 240;
+    let pts = nice_points();
+    let one = Bf::from_i64(1);
+    let mut out: Vec<[f64; 2]> = vec![];
+    let mut put = |e: Iv| {
+        if let Some(x) = dd_of(&e) {
+            if x[0].is_finite() && x[0] != 0.0 && x[0].abs() < 2f64.powi(300) && x[0].abs() > 2f64.powi(-300) {
+                out.push(x);
+            }
+        }
+    };
+    for t in &pts {
+        let a = t.abs();
+        put(Iv::point(t));
+        put(Iv::point(t).sqr(p));
+        put(Iv::point(t).sqr(p).mul(&Iv::point(t), p));
+        if a.approx_f64() < 700.0 {
+            put(rf::exp_pt(t, p));
+            put(rf::expm1_pt(t, p));
+            put(rf::exp2_pt(t, p));
+            put(rf::sinh_pt(t, p));
+            put(rf::cosh_pt(t, p));
+            put(rf::tanh_pt(t, p));
+        }
+        if a.approx_f64() < 300.0 {
+            put(rf::pow_pt(&Bf::from_i64(10), t, p));
+        }
+        if t.sign() > 0 {
+            put(rf::ln_pt(t, p));
+            put(rf::log2_pt(t, p));
+            put(rf::log10_pt(t, p));
+            put(rf::sqrt_pt(t, p));
+        }
+        if one.add_exact(t).sign() > 0 {
+            put(rf::log1p_pt(t, p));
+        }
+        let (s, c) = rf::sincos_pt(t, p);
+        put(s);
+        put(c);
+        put(rf::tan_pt(t, p));
+        put(rf::atan_pt(t, p));
+        put(rf::asinh_pt(t, p));
+        if a.cmp(&one) != core::cmp::Ordering::Greater {
+            put(rf::asin_pt(t, p));
+            put(rf::acos_pt(t, p));
+        }
+        if a.cmp(&one) == core::cmp::Ordering::Less {
+            put(rf::atanh_pt(t, p));
+        }
+        if t.cmp(&one) != core::cmp::Ordering::Less {
+            put(rf::acosh_pt(t, p));
+        }
+    }
+    out.sort_by(|a, b| (a[0].to_bits(), a[1].to_bits()).cmp(&(b[0].to_bits(), b[1].to_bits())));
+    out.dedup_by(|a, b| a[0].to_bits() == b[0].to_bits() && a[1].to_bits() == b[1].to_bits());
+    out
+}
+
+/// Double-double neighbourhoods of `nice_bases()`: quick = offsets 0..16 and a geometric tail, thorough = `ulp_offsets()`.
+pub fn nice_neighbourhoods(quick: bool) -> Vec<[f64; 2]> {
+    let js: Vec<i64> = if quick { (0..=16).chain([24, 32, 48, 64, 80, 128, 1024, 1 << 20, 1 << 40]).collect() } else { ulp_offsets() };
+    let mut v = vec![];
+    for b in nice_bases() {
+        v.extend(neighbourhood(b, &js));
+    }
+    v
+}
